@@ -724,6 +724,26 @@ func w2Main(rc *RunCtx) {
 			}
 		})
 	}
+	if c.gap >= 40*time.Second && simrt.Choose(2) == 0 {
+		// between the two rounds the cache goes through a restart: dump, flush,
+		// load the dump (as a dump_file restart does with a new instance)
+		simrt.GoNamed("cache-restart", func() {
+			simrt.Sleep(0, 20*time.Second)
+			for _, cp := range c.caches {
+				b, code := apiDump(cp)
+				if code != 200 {
+					rc.Fail("dump_failed", "GET /dump returned %d", code)
+					return
+				}
+				apiFlush(cp)
+				if code := apiLoad(cp, b); code != 200 {
+					rc.Fail("load_failed", "POST /load_dump of the dump just taken returned %d", code)
+					return
+				}
+			}
+			simrt.Fault("cache_restart_via_dump")
+		}).Daemon = true
+	}
 	for i := 0; i < c.nClients; i++ {
 		simrt.Recv(0, done)
 	}
